@@ -53,7 +53,11 @@ class Properties:
         if not pattern_elems:
             return prop
         composite = Property(
-            AllOf(prop.element, *pattern_elems),
+            AllOf(
+                prop.element,
+                *pattern_elems,
+                default=getattr(prop.element, "default", NotPassed()),
+            ),
             source=prop.source,
             required=prop.required,
         )
